@@ -17,6 +17,7 @@ func runC01(c *Ctx) {
 	c01KeyLayout(c, "C01.keylayout")
 	c01TTL(c, "C01.ttl")
 	c01DecisionTable(c, "C01.decision-table")
+	c01WalkName(c, "C01.walk-name")
 	c01WildsafeSpan(c, "C01.wildsafe-span")
 	c01TxtChunks(c, "C01.txt-chunks")
 	// whether a name is answered authoritatively or as a referral depends on both the located and the untagged rows
